@@ -768,6 +768,10 @@ def s3c_ctor_post(prop):
                 ok2 = isinstance(lst, list) and any(x is b.st.lookup('_raise_for_status_hook') for x in lst)
             # error statuses become exceptions (the retry / propagation contracts of C12 rest on it)
             res.oblige(p, f'{prop}.s3c.ctor.error_statuses_raise', z3.BoolVal(bool(ok2)))
+            # ... and the client never makes requests up by itself (redirects followed by httpx are unsigned or carry the old signature)
+            kw = cl[0].data['kwargs'] if len(cl) == 1 else {'follow_redirects': True}
+            res.oblige(p, f'{prop}.s3c.ctor.client_sends_only_signed_requests', z3.BoolVal(
+                kw.get('follow_redirects', False) is False and kw.get('auth', None) is None))
     return post
 
 
@@ -793,3 +797,101 @@ def s3_ctor_post(prop):
 def ctor_units(prop):
     return [Unit(f'{prop}.s3c.ctor', S3C_PY, 'S3Compatible.__init__', ctor_setup, s3c_ctor_post(prop), prop=prop),
             Unit(f'{prop}.s3.ctor', 'replicat/backends/s3.py', 'S3.__init__', ctor_setup, s3_ctor_post(prop), prop=prop)]
+
+
+# ------------------------------------------------------------------ _make_request / _make_streaming_request / the response hook:
+# only requests built (= signed) by _prepare_request leave the client, and no answer other than success is taken for one
+def make_request_setup(b):
+    me = Obj('self')
+    b.me = me
+    b.bind('self', me)
+    P = {n: Obj(f'<{n}>') for n in ('method', 'canonical_uri', 'query', 'payload_digest', 'headers')}
+    b.P = P
+    for n, v in P.items():
+        b.bind(n, v)
+    b.bind('kwargs', b.st.new_py('dict', {}))
+    b.request = Obj('<signed request>')
+    b.response = sym.fresh(RESP, 'response')
+
+    def prepare(interp, st, args, kwargs):
+        st.emit('prepare', args=list(args), kwargs=dict(kwargs))
+        yield st, b.request
+
+    def send(interp, st, args, kwargs):
+        bad = st.copy()
+        bad.emit('send_failed')
+        yield bad, Raised(Exc('HTTPError'))
+        st.emit('send', args=list(args), kwargs=dict(kwargs))
+        yield st, b.response
+
+    me._attrs['_prepare_request'] = Model('_prepare_request', prepare)
+    me._attrs['_client'] = Obj('client', send=Model('send', send))
+    RESP.attrs = {'aclose': MethodModel('aclose', lambda i, s, a, k: (s.emit('aclose'), iter([(s, None)]))[1])}
+
+
+def make_request_post(prop, which):
+    def post(res):
+        b = res.builder
+        n = 0
+        for p in res.all_paths() if hasattr(res, 'all_paths') else res.paths:
+            for e in p.events('send'):
+                n += 1
+                pr = p.events('prepare')
+                ok = (len(pr) == 1 and len(e.data['args']) == 1 and e.data['args'][0] is b.request and not pr[0].data['args'][2:]
+                      and pr[0].data['args'][0] is b.P['method'] and pr[0].data['args'][1] is b.P['canonical_uri']
+                      and pr[0].data['kwargs'].get('query') is b.P['query'] and pr[0].data['kwargs'].get('payload_digest') is b.P['payload_digest']
+                      and pr[0].data['kwargs'].get('headers') is b.P['headers'])
+                res.oblige(p.pc_at(e), f'{prop}.s3.{which}.sends_the_request_prepare_request_signed', z3.BoolVal(bool(ok)))
+                kw = e.data['kwargs']
+                # the client itself never builds a request: a followed redirect is a request httpx makes up (Authorization stripped or
+                # copied from the old path), and authentication is entirely in the signed headers
+                allowed = {'stream'} if which == 'make_streaming_request' else set()
+                plain = set(kw) <= allowed | {'follow_redirects', 'auth'} and kw.get('follow_redirects', False) is False and kw.get('auth', None) is None
+                res.oblige(p.pc_at(e), f'{prop}.s3.{which}.no_request_is_made_up_by_the_client', z3.BoolVal(bool(plain)))
+        res.oblige([], f'{prop}.s3.{which}.send_sites_checked', z3.BoolVal(n >= 1))
+    return post
+
+
+def hook_setup(b):
+    b.bind('httpx', Obj('httpx', HTTPStatusError=shared.ExcClass('HTTPStatusError'), HTTPError=shared.ExcClass('HTTPError')))
+    R2 = models.opaque_type('HookResponse')
+    b.R2 = R2
+
+    def raise_for_status(interp, st, args, kwargs):
+        # httpx: raises HTTPStatusError for every answer that is not a success (1xx, 3xx, 4xx, 5xx)
+        bad = st.copy()
+        bad.emit('not_a_success')
+        yield bad, Raised(Exc('HTTPStatusError', attrs={'response': args[0], 'args': ()}))
+        st.emit('success')
+        yield st, None
+
+    flag = lambda nm: Property(lambda i, s, v: iter([(s, sym.fresh(BOOL, nm))]))
+    R2.attrs = {'raise_for_status': MethodModel('raise_for_status', raise_for_status),
+                'aread': MethodModel('aread', lambda i, s, a, k: iter([(s, sym.fresh(BYTES, 'error_body'))])),
+                'has_redirect_location': flag('has_redirect_location'), 'is_redirect': flag('is_redirect'), 'is_success': flag('is_success'),
+                'is_error': flag('is_error'), 'status_code': Property(lambda i, s, v: iter([(s, sym.fresh(INT, 'status_code'))])),
+                'is_client_error': flag('is_client_error'), 'is_server_error': flag('is_server_error')}
+    b.bind('response', sym.fresh(R2, 'response'))
+
+
+def hook_post(prop):
+    def post(res):
+        n = 0
+        for p in res.paths:
+            rs, ok = p.events('not_a_success'), p.events('success')
+            if p.kind in ('return', 'normal'):
+                n += 1
+                # the hook lets a response through only after raise_for_status accepted it: redirects, client and server errors
+                # all surface as HTTPStatusError (what the retry and the 404 / 403 handling of the adapter are written against)
+                res.oblige(p, f'{prop}.s3.hook.only_successful_answers_pass', z3.BoolVal(bool(ok) and not rs))
+            elif rs:
+                res.oblige(p, f'{prop}.s3.hook.failure_is_the_status_error', z3.BoolVal(p.kind == 'raise' and p.value.cls == 'HTTPStatusError'))
+        res.oblige([], f'{prop}.s3.hook.paths_checked', z3.BoolVal(n >= 1))
+    return post
+
+
+def request_units(prop):
+    return [Unit(f'{prop}.s3.make_request', S3C_PY, 'S3Compatible._make_request', make_request_setup, make_request_post(prop, 'make_request'), prop=prop),
+            Unit(f'{prop}.s3.make_streaming_request', S3C_PY, 'S3Compatible._make_streaming_request', make_request_setup,
+                 make_request_post(prop, 'make_streaming_request'), contextmanager=True, prop=prop),
+            Unit(f'{prop}.s3.raise_for_status_hook', S3C_PY, '_raise_for_status_hook', hook_setup, hook_post(prop), prop=prop)]
